@@ -108,13 +108,17 @@ func idem[T any](c codec[T], b []byte) (verdict *world.Verdict, accepted bool) {
 	return nil, true
 }
 
-func hdrHash(h *types.Header) []byte             { return h.Hash() }
-func shHash(h *types.SignedHeader) []byte        { return h.Hash() }
-func dataHash(d *types.Data) []byte              { return append(append([]byte{}, d.Hash()...), d.DACommitment()...) }
-func sdHash(d *types.SignedData) []byte          { return append(append([]byte{}, d.Hash()...), d.DACommitment()...) }
-func diffHdrP(a, b *types.Header) string         { return diffHeader(a, b) }
-func diffStateP(a, b *types.State) string        { return diffState(a, b) }
-func diffCursorP(a, b [][]byte) string           { return diffCursor(a, b) }
+func hdrHash(h *types.Header) []byte      { return h.Hash() }
+func shHash(h *types.SignedHeader) []byte { return h.Hash() }
+func dataHash(d *types.Data) []byte {
+	return append(append([]byte{}, d.Hash()...), d.DACommitment()...)
+}
+func sdHash(d *types.SignedData) []byte {
+	return append(append([]byte{}, d.Hash()...), d.DACommitment()...)
+}
+func diffHdrP(a, b *types.Header) string  { return diffHeader(a, b) }
+func diffStateP(a, b *types.State) string { return diffState(a, b) }
+func diffCursorP(a, b [][]byte) string    { return diffCursor(a, b) }
 func decState(b []byte) (*types.State, error) {
 	var p pb.State
 	if err := proto.Unmarshal(b, &p); err != nil {
@@ -323,7 +327,9 @@ func runBytes(sc BytesScenario) (v world.Verdict) {
 	case dStoreHeader:
 		keys := getStoreKeys()
 		res, accepted = idem(codec[*types.SignedHeader]{dStoreHeader,
-			func(b []byte) (*types.SignedHeader, error) { return storeWith(keys.header, b).GetHeader(theCtx, probeHeight) },
+			func(b []byte) (*types.SignedHeader, error) {
+				return storeWith(keys.header, b).GetHeader(theCtx, probeHeight)
+			},
 			func(x *types.SignedHeader) (*types.SignedHeader, error) {
 				st, _ := newStore()
 				if err := st.SaveBlockData(theCtx, x, pairedData, &x.Signature); err != nil {
